@@ -408,6 +408,13 @@ func (app *App) stateManager() appState {
 		return stateManager
 	}
 
+	if app.cluster.Get(master) == nil {
+		// e.g. the host was removed from ha_nodes while it is still recorded as master:
+		// every step below dereferences the master's node and state
+		app.logger.Error().Msgf("recorded master %s is not a registered cluster host, do nothing", master)
+		return stateManager
+	}
+
 	// activeNodes are master + alive running replicas
 	activeNodes, err := app.GetActiveNodes()
 	if err != nil {
